@@ -8,6 +8,7 @@ import (
 	"gitlab.com/aquachain/aquachain/core/types"
 	"gitlab.com/aquachain/aquachain/core/vm"
 	"gitlab.com/aquachain/aquachain/params"
+	"verifharness/hx"
 )
 
 // impInput renders one `imp` case for the model driver: the header's six commitments, the component values recomputed
@@ -38,7 +39,14 @@ func impInput(bc *core.BlockChain, cfg *params.ChainConfig, block *types.Block) 
 	if err != nil {
 		return ""
 	}
-	rs, _, _, perr := core.NewStateProcessor(cfg, bc, bc.Engine()).Process(block, st, vm.Config{})
+	// the state side is only meaningful (and only safe to run: Process assumes verified uncles) once the earlier checks pass
+	var rs types.Receipts
+	var perr error
+	if hv == 1 && uv == 1 && types.DeriveSha(block.Transactions()) == h.TxHash && types.CalcUncleHash(block.Uncles()) == h.UncleHash {
+		rs, _, _, perr = core.NewStateProcessor(cfg, bc, bc.Engine()).Process(block, st, vm.Config{})
+	} else {
+		perr = fmt.Errorf("not run")
+	}
 	if perr != nil {
 		sb.WriteString(" P=err,0,0 R=")
 		return sb.String()
@@ -79,3 +87,28 @@ func impAccept(h *types.Header, rs types.Receipts) string {
 	}
 	return fmt.Sprintf("accept gas=%d cum=%s bloom=%s", h.GasUsed, strings.Join(cum, ","), bloomHex(types.CreateBloom(rs)))
 }
+
+// validCases: every block of the tree, delivered to a node that holds its parent, as a model case (the node must accept).
+func (c *treeCtx) validCases(run *hx.Run, rt interface{}) {
+	t := c.t
+	db := newMemDB()
+	bc := t.OpenChain(db, &core.CacheConfig{Disabled: true})
+	defer bc.Stop()
+	for _, id := range t.ParentClosedOrder(hxRng(1)) {
+		n := t.Nodes[id]
+		run.Current(fmt.Sprintf("valid-case %s node %d", c.name, id))
+		line := impInput(bc, t.Cfg, n.Block)
+		_, err := bc.InsertChain(types.Blocks{n.Block})
+		if line == "" {
+			continue
+		}
+		if err != nil {
+			run.Case(line, "reject "+errClass(err))
+			continue
+		}
+		run.Case(line, impAccept(n.Block.Header(), core.GetBlockReceipts(db, n.Block.Hash(), n.Block.NumberU64())))
+		run.Count("valid-cases")
+	}
+}
+
+func hxRng(s uint64) *hx.Rng { return hx.NewRng(s) }
